@@ -12,6 +12,7 @@ import (
 	"github.com/zishang520/engine.io/v2/config"
 	"github.com/zishang520/engine.io/v2/transports"
 	"github.com/zishang520/engine.io/v2/types"
+	"github.com/zishang520/engine.io/v2/internal/zzmodels"
 	verif "github.com/zishang520/engine.io/v2/internal/zzverif"
 )
 
@@ -24,14 +25,14 @@ type wsClient struct {
 
 // dialWS sends the frames over a WebSocket opened with the given query to a server whose
 // handler is the engine's real ServeHTTP / HandleUpgrade, and lets the server process them.
-func dialWS(ps *server, query string, frames []wsMsg) (received []wsMsg) {
+func dialWS(ps *server, query string, frames []zzmodels.WsMsg) (received []zzmodels.WsMsg) {
 	if verif.Symbolic() {
 		defer func() {
-			if wsLastConn != nil {
-				received = wsOf(wsLastConn).out
+			if zzmodels.WsLastConn != nil {
+				received = zzmodels.WsOf(zzmodels.WsLastConn).Out
 			}
 		}()
-		wsPending = frames
+		zzmodels.WsPending = frames
 		r := &http.Request{Method: "GET", Header: http.Header{"Connection": {"Upgrade"}, "Upgrade": {"websocket"}}, Proto: "HTTP/1.1", RemoteAddr: "192.0.2.9:999"}
 		w := &fakeWriter{}
 		r.URL = mustURL("/engine.io/?" + query)
@@ -48,7 +49,7 @@ func dialWS(ps *server, query string, frames []wsMsg) (received []wsMsg) {
 	}
 	defer c.Close()
 	var mu sync.Mutex
-	var got []wsMsg
+	var got []zzmodels.WsMsg
 	go func() {
 		for {
 			mt, data, err := c.ReadMessage()
@@ -56,13 +57,13 @@ func dialWS(ps *server, query string, frames []wsMsg) (received []wsMsg) {
 				return
 			}
 			mu.Lock()
-			got = append(got, wsMsg{mt, data})
+			got = append(got, zzmodels.WsMsg{mt, data})
 			mu.Unlock()
 		}
 	}()
-	defer func() { mu.Lock(); received = append([]wsMsg(nil), got...); mu.Unlock() }()
+	defer func() { mu.Lock(); received = append([]zzmodels.WsMsg(nil), got...); mu.Unlock() }()
 	for _, f := range frames {
-		c.WriteMessage(f.mt, f.data)
+		c.WriteMessage(f.Mt, f.Data)
 		time.Sleep(20 * time.Millisecond)
 	}
 	time.Sleep(80 * time.Millisecond)
@@ -98,9 +99,9 @@ func VerifH_C10_ws_limit() {
 		_, tr := ps.Handshake(transports.POLLING, hctx)
 		verif.Assume(tr != nil)
 		sid := tr.Sid()
-		dialWS(ps, "EIO=4&transport=websocket&sid="+sid, []wsMsg{{ws.TextMessage, []byte("2probe")}, {ws.TextMessage, []byte("5")}, {ws.TextMessage, []byte(big)}})
+		dialWS(ps, "EIO=4&transport=websocket&sid="+sid, []zzmodels.WsMsg{{ws.TextMessage, []byte("2probe")}, {ws.TextMessage, []byte("5")}, {ws.TextMessage, []byte(big)}})
 	} else {
-		dialWS(ps, "EIO=4&transport=websocket", []wsMsg{{ws.TextMessage, []byte(big)}})
+		dialWS(ps, "EIO=4&transport=websocket", []zzmodels.WsMsg{{ws.TextMessage, []byte(big)}})
 	}
 	if over {
 		verif.Assert(len(msgs) == 0, "a frame larger than the maximum payload is never delivered")
@@ -147,9 +148,9 @@ func VerifH_C01_ws_batch() {
 	got := dialWS(ps, "EIO=4&transport=websocket", nil)
 	verif.Assert(len(got) == n+1, "the open packet and every sent message arrive, nothing else")
 	if len(got) == n+1 {
-		verif.Assert(got[0].mt == ws.TextMessage && len(got[0].data) > 0 && got[0].data[0] == '0', "the open packet comes first")
+		verif.Assert(got[0].Mt == ws.TextMessage && len(got[0].Data) > 0 && got[0].Data[0] == '0', "the open packet comes first")
 		for i, w := range want {
-			verif.Assert(got[i+1].mt == w.mt && string(got[i+1].data) == w.data, "each message once, in order, same kind and bytes")
+			verif.Assert(got[i+1].Mt == w.mt && string(got[i+1].Data) == w.data, "each message once, in order, same kind and bytes")
 		}
 	}
 }
@@ -169,16 +170,16 @@ func VerifH_C02_ws_frames() {
 		})
 	})
 	n := verif.Choose(3) + 1
-	var frames []wsMsg
+	var frames []zzmodels.WsMsg
 	var want []string
 	var wantText []bool
 	for i := 0; i < n; i++ {
 		body := string(rune('a' + i))
 		if verif.Bool() {
-			frames = append(frames, wsMsg{ws.TextMessage, []byte("4" + body)})
+			frames = append(frames, zzmodels.WsMsg{ws.TextMessage, []byte("4" + body)})
 			wantText = append(wantText, true)
 		} else {
-			frames = append(frames, wsMsg{ws.BinaryMessage, []byte(body)})
+			frames = append(frames, zzmodels.WsMsg{ws.BinaryMessage, []byte(body)})
 			wantText = append(wantText, false)
 		}
 		want = append(want, body)
